@@ -29,7 +29,7 @@ inductive Res (α : Type) where
   | ok (a : α)
   | err (e : Err)
   | panic
-  deriving Repr
+  deriving Repr, DecidableEq
 
 def Res.bind {α β : Type} (r : Res α) (f : α → Res β) : Res β :=
   match r with
@@ -40,10 +40,6 @@ def Res.bind {α β : Type} (r : Res α) (f : α → Res β) : Res β :=
 instance : Monad Res where
   pure := .ok
   bind := Res.bind
-
-instance {α : Type} [DecidableEq α] : DecidableEq (Res α) := by
-  intro a b
-  cases a <;> cases b <;> simp <;> exact inferInstance
 
 /-- `d[i]` -/
 def idx (d : Bytes) (i : Nat) : Res Nat :=
